@@ -654,6 +654,34 @@ func render(t *tape.Tape, ws *Workspace, f *File, o Options) {
 	if plantKind == "duplicate-message" {
 		w("\nmessage " + short + " {\n}\n")
 	}
+	if f.Syntax == "proto2" && !o.LintClean && t.Draw("ws.extchain", 3) == 2 {
+		// a chain of extensions: A is extended by a field of type B, B by a field of type C, C by one of type D -
+		// whoever keeps A "with its known extensions" has to follow the chain to its end, every time
+		c := "Chain" + short[1:]
+		w(fmt.Sprintf("\nmessage %sA {\n  extensions 100 to 199;\n}\n", c))
+		for _, l := range []string{"B", "C"} {
+			w(fmt.Sprintf("\nmessage %s%s {\n  optional string %s = 1;\n  extensions 100 to 199;\n}\n", c, l, strings.ToLower(l)))
+		}
+		w(fmt.Sprintf("\nmessage %sD {\n  optional string d = 1;\n}\n", c))
+		for _, pair := range [][2]string{{"A", "B"}, {"B", "C"}, {"C", "D"}} {
+			w(fmt.Sprintf("\nextend %s%s {\n  optional %s%s ext_%s_%s%s = 100;\n}\n", c, pair[0], c, pair[1], strings.ToLower(c), strings.ToLower(pair[0]), strings.ToLower(pair[1])))
+		}
+	}
+	if f.Syntax == "editions" && !o.LintClean && t.Draw("ws.utf8feature", 3) == 2 {
+		// string fields with a per-field feature (the previous version, see Mutate, has none): several
+		// breaking rules look at the same field's options at once; now and then a great many fields
+		nm, nf := 1, 3
+		if t.Draw("ws.utf8wide", 3) == 2 {
+			nm, nf = 12, 40
+		}
+		for k := 0; k < nm; k++ {
+			w(fmt.Sprintf("\nmessage Strings%s%d {\n", short[1:], k))
+			for j := 1; j <= nf; j++ {
+				w(fmt.Sprintf("  string s%d = %d%s;\n", j, j, utf8FeatureOption))
+			}
+			w("}\n")
+		}
+	}
 	if !o.LintClean && t.Draw("ws.enum", 3) == 1 {
 		en := fmt.Sprintf("E%s", short[1:])
 		w("\nenum " + en + " {\n")
@@ -718,6 +746,10 @@ func (ws *Workspace) Mutate(t *tape.Tape) map[string]string {
 			out[p] = c
 		}
 	}
+	// the previous version had no per-field features
+	for _, p := range paths {
+		out[p] = strings.ReplaceAll(out[p], utf8FeatureOption, "")
+	}
 	// the previous version sometimes had several more files, each with its own package, that
 	// no longer exist: deleted files and packages are reported without a file position
 	if t.Draw("ws.deleted", 3) != 0 {
@@ -728,6 +760,9 @@ func (ws *Workspace) Mutate(t *tape.Tape) map[string]string {
 	}
 	return out
 }
+
+// utf8FeatureOption is what Mutate removes from every field to obtain the previous version.
+const utf8FeatureOption = " [features.utf8_validation = NONE]"
 
 // RemovedPrefix starts the directory names of files that exist only in the previous version.
 const RemovedPrefix = "zzremoved"
